@@ -237,7 +237,7 @@ bool Exec::lib_dump(mpq_QSprob p, int variant, LP &out, std::string &err) {
 			for (int j = 0; j < n && err.empty(); j++) for (int k = cb[j]; k < cb[j] + cc[j]; k++) { int row = ci[k]; Q cvk = lib_to_q(cv[k]); auto it = out.rows[row].coef.find(j); if (cvk == 0 ? it != out.rows[row].coef.end() : (it == out.rows[row].coef.end() || it->second != cvk)) err = strf("QSget_columns_list and QSget_coef disagree at (%d,%d)", row, j); }
 			mpq_QSfree(cc); mpq_QSfree(cb); mpq_QSfree(ci); shim_mpq_free(cv); if (!err.empty()) return false; }
 	}
-	for (auto &r : out.rows) if (r.sense != 'R') r.range = 0;
+	// (the range of a row that is not ranged is left as the library reports it: it is observable, and it is zero)
 	out.lib_nzcount = nzc;
 	// name -> index lookups
 	for (int j = 0; j < n; j++) { int idx = -2; if (mpq_QSget_column_index(p, out.cols[j].name.c_str(), &idx) || idx != j) { err = strf("QSget_column_index(%s) gives %d, expected %d", out.cols[j].name.c_str(), idx, j); return false; } }
@@ -252,7 +252,7 @@ void Exec::check_dump(Obj &o, const char *when) {
 	bool ok = lib_dump(o.p, variant, got, err);
 	after_lib_call("query");
 	if (!ok) { violate("C06", std::string("query-failed:") + (op ? op->kind : "?"), std::string(when) + ": " + err); o.broken = true; return; }
-	std::string a = got.canon(), b = o.m.canon();
+	std::string a = got.canon(true), b = o.m.canon(true);   // the range a non-ranged row reports is observable too (QSget_ranged_rows): it is zero
 	if (a == b && (got.lib_nzcount < o.m.nz() || got.lib_nzcount > o.m.nz() + o.m.zeros()))
 		violate("C06", std::string("nzcount:") + (op ? op->kind : "?") + (op && op->has("what") ? ":" + op->s("what") : ""), strf("%s: QSget_nzcount=%d but the problem has %d nonzeros (+%d explicit zeros)", when, got.lib_nzcount, o.m.nz(), o.m.zeros()));
 	if (a != b) {
